@@ -23,27 +23,45 @@ def correspondence(ck):
     ck.obligation("correspondence:utils.kaiser_alpha == Kaiser.kaiser_alpha at binary64 (bit-exact)", not bad, "; ".join(bad[:3]))
 
 
-def _lines(P, L, b0, ph, b):
+def _kaiser_spec(which):
+    """The ways a Kaiser window can be requested: by name, or by passing the NumPy / SciPy window function itself."""
+    if which == "numpy":
+        return np.kaiser
+    if which == "scipy":
+        from scipy.signal.windows import kaiser
+        return kaiser
+    return "kaiser"
+
+
+def _lines(P, L, b0, ph, b, win="name"):
     """Responses at analysis bin b of the two spectral lines (+b0 and its image -b0) of cos(2 pi b0 n/L + ph), separated with the
     quadrature partner sin(...):  |C + iS|^2 = XX + YY + 2 Im(XY) is the line at +b0 alone, |C - iS|^2 the image alone
     (or the other way round; the caller fixes the sign on the sinusoid's own frequency), XX is the real sinusoid (both lines)."""
     from speckit.analysis import SpectrumAnalyzer
     th = 2 * np.pi * b0 * np.arange(L) / L + ph
-    an = SpectrumAnalyzer(np.vstack([np.cos(th), np.sin(th)]), 1.0, win="kaiser", psll=P, order=-1, olap=0.0)
+    an = SpectrumAnalyzer(np.vstack([np.cos(th), np.sin(th)]), 1.0, win=_kaiser_spec(win), psll=P, order=-1, olap=0.0)
     d = an.compute_single_bin(b / L, L=L)._data
     XX = float(d["XX"][0]); YY = float(d["YY"][0]); im = float(np.imag(d["XY"][0]))
     return XX, XX + YY + 2 * im, XX + YY - 2 * im
 
 
-def sidelobe_case(P, L, b0, ph, off):
+def _auto_power(P, L, b0, ph, b, win="name", backend="auto"):
+    """|X|^2 of the real sinusoid analysed as a single channel (the auto-spectrum kernels)."""
+    from speckit.analysis import SpectrumAnalyzer
+    th = 2 * np.pi * b0 * np.arange(L) / L + ph
+    an = SpectrumAnalyzer(np.cos(th), 1.0, win=_kaiser_spec(win), psll=P, order=-1, olap=0.0, backend=backend)
+    return float(an.compute_single_bin(b / L, L=L)._data["XX"][0])
+
+
+def sidelobe_case(P, L, b0, ph, off, win="name"):
     """Returns (violation text or None, suppression of the line in dB, suppression of the real sinusoid in dB)."""
     from speckit.utils import kaiser_alpha
     alpha = float(kaiser_alpha(P)); lobe = math.sqrt(1 + alpha * alpha)
-    xx0, p0, m0 = _lines(P, L, b0, ph, b0)
+    xx0, p0, m0 = _lines(P, L, b0, ph, b0, win)
     sgn = 1 if p0 >= m0 else -1
     on = max(p0, m0)
     b = b0 + off
-    xx, p, m = _lines(P, L, b0, ph, b)
+    xx, p, m = _lines(P, L, b0, ph, b, win)
     line, image = (p, m) if sgn == 1 else (m, p)
     sup = 10 * math.log10(on / max(line, 1e-320))
     sup_real = 10 * math.log10(xx0 / max(xx, 1e-320))
@@ -59,6 +77,14 @@ def sidelobe_case(P, L, b0, ph, off):
     # the real sinusoid is the coherent sum of the two lines: its response cannot exceed (|line| + |image|)^2 / 4
     if what is None and xx > 0.25 * (math.sqrt(max(line, 0)) + math.sqrt(max(image, 0))) ** 2 * (1 + 1e-6) + 1e-300:
         what = "psll=%g, L=%d: response to the real sinusoid at bin %.3f exceeds the coherent sum of its two lines at offset %.2f" % (P, L, b0, off)
+    # the same record analysed as a single channel (auto-spectrum kernels, every backend) has the same |X|^2 as in the pair
+    if what is None:
+        for be in ("auto", "numpy"):
+            xa = _auto_power(P, L, b0, ph, b, win, be)
+            if abs(xa - xx) > 0.5 * xx + 10 ** (-(P + 25) / 10) * xx0:      # rounding differs between kernels; a truncated window or another shape does not
+                what = "psll=%g, L=%d: single-channel analysis (backend %s) gives |X|^2 = %r at offset %.2f bins but the same channel in a pair gives %r (%.1f dB vs %.1f dB below the tone)" % (
+                    P, L, be, xa, off, xx, 10 * math.log10(xx0 / max(xa, 1e-320)), 10 * math.log10(xx0 / max(xx, 1e-320)))
+                break
     return what, sup, sup_real
 
 
@@ -84,10 +110,11 @@ def sweep(ck):
                 b = b0 + sgn * off
                 if b < 0 or b > L / 2:
                     continue
-                what, sup, sup_real = sidelobe_case(P, L, b0, ph, sgn * off); evals += 1
+                wsel = ck.rng.choice(["name", "name", "numpy", "scipy"])
+                what, sup, sup_real = sidelobe_case(P, L, b0, ph, sgn * off, wsel); evals += 1
                 worst = min(worst, sup - (P - 1)); worst_real = min(worst_real, sup_real - (P - 1))
                 if what:
-                    ck.violation(what, dict(psll=P, L=L, bin=b0, offset=sgn * off, phase=ph), tag="sidelobe")
+                    ck.violation(what, dict(psll=P, L=L, bin=b0, offset=sgn * off, phase=ph, win=wsel), tag="sidelobe")
     ck.cov["sidelobe_evaluations"] = evals
     ck.cov["worst_margin_dB_over_P_minus_1"] = worst
     ck.cov["worst_margin_dB_real_sinusoid_both_lines"] = worst_real
@@ -106,5 +133,5 @@ def run(ck):
 
 def replay(rec):
     i = rec["violation"]["input"]
-    what, sup, sup_real = sidelobe_case(i["psll"], i["L"], i["bin"], i["phase"], i["offset"])
+    what, sup, sup_real = sidelobe_case(i["psll"], i["L"], i["bin"], i["phase"], i["offset"], i.get("win", "name"))
     print("replay:", what or "property holds now (line %.2f dB down, real sinusoid %.2f dB)" % (sup, sup_real)); return 1 if what else 0
